@@ -128,6 +128,29 @@ for _name in sorted(DISPATCH):
          raises={"UnexpectedCharacter": "True", "UnmatchedCharacter": "True"},
          ensures=_ens)
 
+S.fn("problog.parser:PrologParser._token_upper", types={"s": "Str", "pos": "Int"}, returns="Tuple[Tok,Int]",
+     requires=["0 <= pos < len(s)"], modifies=["Token.*"],
+     loops={0: loop(invariant=["pos + 1 <= end < s_len", "c == s[end]", "s_len == len(s)"], decreases="s_len - end")},
+     ensures=["pos < result[1] <= len(s)", "result[0].string == s[pos:result[1]]", "result[0].location == pos",
+              "result[0].special == 6"])
+
+S.fn("problog.parser:PrologParser._token_notsupported", types={"s": "Str", "pos": "Int"}, returns="Tuple[None,Int]",
+     requires=["0 <= pos < len(s)"], raises={"UnexpectedCharacter": "True"}, ensures=["False"])
+
+# the number token is cut by a regular expression: its contract is ASSUMED (trusted), stated for the positions the
+# dispatcher sends to it (a digit, or a dot followed by a digit)
+S.fn("problog.parser:PrologParser._token_number", types={"s": "Str", "pos": "Int"}, returns="Tuple[Tok,Int]",
+     requires=["0 <= pos < len(s)"], modifies=["Token.*"], trusted=True,
+     ensures=["pos < result[1] <= len(s)", "result[0].string == s[pos:result[1]]", "result[0].location == pos"],
+     note="RE_FLOAT.match(s, pos) returns a non-empty match at pos when s[pos] is a digit or a dot followed by a digit")
+
+S.fn("problog.parser:PrologParser._token_dot", types={"s": "Str", "pos": "Int"}, returns="Tuple[Tok,Int]",
+     requires=["0 <= pos < len(s)", "s[pos] == '.'"], modifies=["Token.*"],
+     raises={"UnexpectedCharacter": "True"},
+     ensures=["pos < result[1] <= len(s)", "result[0].string == s[pos:result[1]]", "result[0].location == pos",
+              # a dot at the end of the text or before white space / a comment ends the statement
+              "implies(pos + 1 == len(s), result[0].special == 2 and result[1] == pos + 1)"])
+
 S.unverified("the token actions (_token_*), _tokenize, _extract_statements, collapse, label_tokens, fold, the factories and "
              "Term.__repr__: bounded stand-in only (bounded/c17.py)")
 
